@@ -9,6 +9,10 @@ of statements, or the contents of literals and comments).  Helper lemmas: `Proof
 Partial: sqlparse's and sqlfluff's real lexers are modelled (not verified) — the tie is the differential correspondence
 of `harness/c05.py`; statements outside `level0` (see `Model/Split.lean`) are only exercised.  The per‑statement analyser
 and the assembler are abstract parameters of the runner theorems (their models belong to C01–C04).
+Not proved here: that the CONCRETE analyser / assembler models ignore the session when the provider is falsy
+(`analyze_ignores_session_when_falsy` of DESIGN.md §5 — `Model.Walk` / `Model.Assemble` are other layers); it is the hypothesis
+`Falsy` below and is exercised on the real code by part C of `harness/c05.py`.  Likewise insensitivity of the analysis to
+attached comments / blanks / the trailing `;` (C07) is the hypothesis `hresp` of `script_eq_statements`.
 -/
 import SqlLineage.Model.Split
 import SqlLineage.Spec.Split
